@@ -115,6 +115,25 @@ def run(ctx):
                              job[0], pr["schedule"]),
                           {"programs": job[0], "generator": job[1], "scaled": job[2], "table_full": job[3],
                            "schedule": pr["schedule"], "what": pr["what"]})
+    # line granularity: one preemption at every line / access position, for the combinations where a window between
+    # two lines (not two field accesses) could matter: lazy table construction, rescaling, pickling
+    sweep = []
+    for a, b in ([("mul", "mul"), ("mul", "x"), ("mul", "pickle"), ("muladd", "mul"), ("scale", "x"), ("scale", "scale"),
+                  ("to_affine", "y"), ("to_affine", "mul"), ("scale", "pickle"), ("mul", "eq"), ("muladd", "add")]
+                 if quick else pairs):
+        for gen, scaled, tfull in ((True, False, False), (False, False, False)) + (() if quick else ((True, True, False),)):
+            sweep.append((((a,), (b,)), gen, scaled, tfull))
+    nsweep = 0
+    for job, (execs, steps, problems) in zip(sweep, pool.map(ptdrv.preemption_sweep, sweep)):
+        ctx.traces += execs
+        ctx.evaluations += steps
+        nsweep += execs
+        for pr in problems:
+            ctx.violation("%s [line-granularity schedule: %s; shared point: generator=%s, initially %s; programs %s]"
+                          % (pr["what"], pr["schedule"], job[1], "scaled" if job[2] else "unscaled", job[0]),
+                          {"programs": job[0], "generator": job[1], "scaled": job[2], "table_full": job[3],
+                           "schedule": pr["schedule"], "what": pr["what"], "granularity": "line"})
+    ctx.extra["line_granularity_single_preemption_executions"] = nsweep
     pool.shutdown()
     ctx.extra["real_schedule_explorations"] = {"combinations": len(explore_jobs), "hit_cap": incomplete}
     ctx.rule = ("S->C: TLC's state graph of PointThreads.tla for every unordered pair of {x, y, scale, to_affine, ==, +, double, "
